@@ -195,22 +195,22 @@ func NewPolynomialVector(polys []bignum.Polynomial, mapping map[int][]int) (Poly
 	}, nil
 }
 
-// IsEven returns true if all underlying polynomials are even,
-// i.e. all odd powers are zero.
+// IsEven returns true if at least one of the underlying polynomials
+// has its IsEven flag set, i.e. can have non-zero even powers
+// (the flags of a single polynomial are used the same way: a polynomial
+// with IsEven = false has no even powers).
 func (p PolynomialVector) IsEven() (even bool) {
-	even = true
 	for _, poly := range p.Value {
-		even = even && poly.IsEven
+		even = even || poly.IsEven
 	}
 	return
 }
 
-// IsOdd returns true if all underlying polynomials are odd,
-// i.e. all even powers are zero.
+// IsOdd returns true if at least one of the underlying polynomials
+// has its IsOdd flag set, i.e. can have non-zero odd powers.
 func (p PolynomialVector) IsOdd() (odd bool) {
-	odd = true
 	for _, poly := range p.Value {
-		odd = odd && poly.IsOdd
+		odd = odd || poly.IsOdd
 	}
 	return
 }
